@@ -70,7 +70,11 @@ type streamLog struct {
 type ChatSvc struct {
 	log   *streamLog
 	first int
+	bad   bool // the handler also writes one value the body codec cannot encode, between its pushes
 }
+
+// something BYTESCodec cannot marshal
+type notBytes struct{ X int }
 
 func (c *ChatSvc) Chat(h *hStream) error {
 	// the tag is learnt from the first message read, or announced by pushes using tag 200+k of the push counter
@@ -118,6 +122,11 @@ func (c *ChatSvc) Chat(h *hStream) error {
 		}
 		c.log.srvRead[t] = append(c.log.srvRead[t], id)
 		c.log.mu.Unlock()
+		if c.bad && id == 1 {
+			// a value the body codec cannot encode: the reader on the other side is told (an error in
+			// place of a message); what is written afterwards is not affected
+			h.s.WriteMessage(&notBytes{1})
+		}
 		if id%2 == 0 { // echo the even ones
 			if err := h.s.WriteMessage(ptr(streamMsg(t, id+1000, id%5))); err == nil {
 				c.log.mu.Lock()
@@ -149,6 +158,10 @@ type streamRun struct {
 }
 
 func newStreamRun(e *Env, first int, chunkMode int, srvPipe, srvDirect, cliDirect bool) *streamRun {
+	return newStreamRunBad(e, first, chunkMode, srvPipe, srvDirect, cliDirect, false)
+}
+
+func newStreamRunBad(e *Env, first int, chunkMode int, srvPipe, srvDirect, cliDirect, bad bool) *streamRun {
 	r := &streamRun{e: e, log: &streamLog{srvRead: map[int][]int{}, srvWrote: map[int][]int{}, exited: map[int]bool{}}, done: make(chan struct{})}
 	var rmu sync.Mutex
 	sizes := func() int {
@@ -171,7 +184,7 @@ func newStreamRun(e *Env, first int, chunkMode int, srvPipe, srvDirect, cliDirec
 	r.srv.SetLogLevel(rpc.OffLogLevel)
 	r.srv.SetPipelining(srvPipe)
 	r.srv.SetDirectIO(srvDirect)
-	r.srv.RegisterName("Chat", &ChatSvc{log: r.log, first: first})
+	r.srv.RegisterName("Chat", &ChatSvc{log: r.log, first: first, bad: bad})
 	go func() {
 		r.srv.ServeCodec(rpc.NewServerCodec(&rpc.BYTESCodec{}, nil, r.srvRec, srvDirect, 0))
 		close(r.done)
@@ -180,7 +193,7 @@ func newStreamRun(e *Env, first int, chunkMode int, srvPipe, srvDirect, cliDirec
 	if cliDirect {
 		r.conn.SetDirectIO(true)
 	}
-	r.replay = map[string]interface{}{"first_pushes": first, "chunk_mode": chunkMode, "server_pipelining": srvPipe, "server_directIO": srvDirect, "client_directIO": cliDirect, "seed": e.Seed}
+	r.replay = map[string]interface{}{"first_pushes": first, "chunk_mode": chunkMode, "server_pipelining": srvPipe, "server_directIO": srvDirect, "client_directIO": cliDirect, "unencodable_writes": bad, "seed": e.Seed}
 	return r
 }
 
@@ -190,6 +203,7 @@ type cliStream struct {
 	wrote   []int
 	read    []int // ids of messages read
 	readAll bool
+	sawWriteError bool
 }
 
 func readWithTimeout(s rpc.Stream, d time.Duration) ([]byte, error, bool) {
@@ -213,7 +227,8 @@ func readWithTimeout(s rpc.Stream, d time.Duration) ([]byte, error, bool) {
 
 func runStreamOne(e *Env, i int, prop string) (cases []string) {
 	first := []int{0, 1, 3, 0, 2}[i%5]
-	r := newStreamRun(e, first, i%3, i%4 == 1, i%5 == 2, i%3 == 1)
+	bad := i%5 == 4 || i%7 == 1 // both ends also write one value the codec cannot encode
+	r := newStreamRunBad(e, first, i%3, i%4 == 1, i%5 == 2, i%3 == 1, bad)
 	nstreams := 1 + i%4
 	var streams []*cliStream
 	var mu sync.Mutex
@@ -267,6 +282,10 @@ func runStreamOne(e *Env, i int, prop string) (cases []string) {
 				if id%2 == 0 {
 					expectReads++
 				}
+				if bad && id == 1 {
+					// a message that cannot be encoded is not sent; the stream is otherwise unaffected
+					cs.s.WriteMessage(&notBytes{2})
+				}
 			}
 			// read everything the handler sends
 			for len(cs.read) < expectReads {
@@ -274,6 +293,15 @@ func runStreamOne(e *Env, i int, prop string) (cases []string) {
 				if !ok {
 					fail("C09-message-lost", fmt.Sprintf("stream %d: client read %v, then waited 10s for message %d of %d (pushed first: %d)", cs.tag, cs.read, len(cs.read)+1, expectReads, first))
 					return
+				}
+				if err != nil && bad && err.Error() == rpc.ErrorBYTES.Error() {
+					// the handler's unencodable value is reported to this reader: the library attaches the
+					// error to what it delivers from then on; the messages themselves must still all arrive
+					cs.sawWriteError = true
+					if len(b) == 0 {
+						continue
+					}
+					err = nil
 				}
 				if err != nil {
 					fail("C09-read-error", fmt.Sprintf("stream %d: ReadMessage failed: %v", cs.tag, err))
@@ -388,7 +416,7 @@ func runStreamOne(e *Env, i int, prop string) (cases []string) {
 		for range streams {
 			select {
 			case err := <-blocked:
-				if err != nil {
+				if err != nil && !(bad && err.Error() == rpc.ErrorBYTES.Error()) {
 					fail("C10-sibling-disturbed", fmt.Sprintf("a sibling's blocked ReadMessage failed after another stream was closed: %v", err))
 				}
 			case <-time.After(5 * time.Second):
@@ -519,6 +547,13 @@ func streamCases(r *streamRun, kept []*cliStream, first int) []string {
 			s2c = append(s2c, "PUnary 0")
 			continue
 		}
+		if len(h.Errtxt) > 0 && acked[h.Seq] {
+			// an error frame on an established stream (the handler wrote a value the body codec could not
+			// encode): it carries no message; the stream model has no such frame, for it it is traffic
+			// that leaves the stream alone
+			s2c = append(s2c, "PUnary 0")
+			continue
+		}
 		if len(h.Body) == 0 {
 			if !acked[h.Seq] {
 				acked[h.Seq] = true
@@ -562,7 +597,10 @@ func runStream(work, prop string) {
 		}
 	}
 	streamPoll(e)
-	e.Res.Rule = "end-to-end stream runs over a chunking byte pipe: 1-4 streams per connection interleaved with unary calls and pings; the handler pushes 0-3 messages before reading (first server write races with stream establishment); numbered, tagged, self-checking messages of 4..70004 bytes; every stream's two directions compared message by message; then a reader blocked on each end and (a) client Close of one stream with siblings kept working, (b) connection loss; poll-mode server over a real unix socket; the frames both readers received are replayed through the model's routing; non-trivial = distinct (pushes, chunk mode, streams, close mode, message count)"
+	if prop == "C10" {
+		streamStopRace(e)
+	}
+	e.Res.Rule = "end-to-end stream runs over a chunking byte pipe: 1-4 streams per connection interleaved with unary calls and pings; the handler pushes 0-3 messages before reading (first server write races with stream establishment); numbered, tagged, self-checking messages of 4..70004 bytes; every stream's two directions compared message by message; then a reader blocked on each end and (a) client Close of one stream with siblings kept working, (b) connection loss; poll-mode server over a real unix socket; (C10) readers about to block racing with Close / connection loss, 12 streams a round; the frames both readers received are replayed through the model's routing; non-trivial = distinct (pushes, chunk mode, streams, close mode, message count)"
 	names := writeCases(work, "From Coq Require Import List. Import ListNotations. From RPC Require Import RunStream. From RPC.Stream Require Import Model.", "scase", cases, 60)
 	e.Res.ModelCases = len(cases)
 	e.Res.Extra["case_files"] = names
@@ -623,4 +661,72 @@ func streamPoll(e *Env) {
 	}
 	srv.Close()
 	e.count("poll-stream", "poll-stream")
+}
+
+// streamStopRace: a reader that is just about to block races with the end of its stream (Close by the
+// client, or the loss of the connection).  Whatever the interleaving, the reader returns.
+func streamStopRace(e *Env) {
+	rounds := 1500
+	if e.thorough() {
+		rounds = 30000
+	}
+	const nstreams = 12
+	for round := 0; round < rounds; round++ {
+		r := newStreamRun(e, 0, 0, round%4 == 1, round%5 == 2, round%3 == 1)
+		var ss []rpc.Stream
+		for k := 0; k < nstreams; k++ {
+			s, err := r.conn.NewStream("Chat.Chat")
+			if err != nil {
+				break
+			}
+			ss = append(ss, s)
+		}
+		done := make(chan int, len(ss))
+		start := make(chan struct{})
+		for k, s := range ss {
+			d := time.Duration(e.Rng.Intn(40)) * time.Microsecond
+			go func(k int, s rpc.Stream, d time.Duration) {
+				<-start
+				spin(d)
+				var m []byte
+				s.ReadMessage(nil, &m)
+				done <- k
+			}(k, s, d)
+		}
+		d := time.Duration(e.Rng.Intn(40)) * time.Microsecond
+		close(start)
+		spin(d)
+		if round%2 == 0 {
+			for _, s := range ss {
+				go s.Close()
+			}
+		} else {
+			r.conn.Close()
+			r.cliRW.Close()
+		}
+		deadline := time.After(3 * time.Second)
+		got := 0
+		for got < len(ss) {
+			select {
+			case <-done:
+				got++
+			case <-deadline:
+				e.fail("C10-client-reader-stays-blocked", fmt.Sprintf("%d of %d readers that were about to block when their stream ended (%s) never returned", len(ss)-got, len(ss), map[bool]string{true: "Stream.Close", false: "connection loss"}[round%2 == 0]),
+					map[string]interface{}{"scenario": "reader about to block races with the end of its stream", "round": round, "streams": len(ss), "seed": e.Seed})
+				got = len(ss)
+				round = rounds
+			}
+		}
+		if round%2 == 0 {
+			r.conn.Close()
+			r.cliRW.Close()
+		}
+		select {
+		case <-r.done:
+		case <-time.After(3 * time.Second):
+			e.fail("C10-handler-stays-blocked", "ServeCodec did not return after the connection ended (a stream handler is still blocked)", map[string]interface{}{"scenario": "stop race", "round": round, "seed": e.Seed})
+			round = rounds
+		}
+		e.count("stop-race", fmt.Sprintf("sr-%d", round%40))
+	}
 }
